@@ -585,6 +585,15 @@ func checkCase(c Case) error {
 		return vt.Violationf(classOf(c, "panic"), "%s (sig %q action %d) panicked on %d bytes %s: %v\n%s", c.Entry, c.Sig, c.Action, len(data), short, res.panicked, res.stack)
 	}
 	if res.timedOut {
+		if os.Getenv("VERIF_REPLAY") == "" {
+			// the runaway goroutine keeps burning CPU (and memory) for ever: shrinking
+			// would pile up more of them. Save the case as it is and leave at once.
+			v := vt.Violationf(classOf(c, "time"), "%s (sig %q action %d) did not return within %v on %d bytes %s", c.Entry, c.Sig, c.Action, timeBudget, len(data), short)
+			path := vt.SaveFailure(prop, "TestCampaign", c, v)
+			vt.Flush()
+			fmt.Printf("VIOLATION-CASE property=%s test=TestCampaign class=%s file=%s: %s\n", prop, v.Class, path, v.Msg)
+			os.Exit(1)
+		}
 		return vt.Violationf(classOf(c, "time"), "%s (sig %q action %d) did not return within %v on %d bytes %s", c.Entry, c.Sig, c.Action, timeBudget, len(data), short)
 	}
 	perByte := allocPerByteBinary
